@@ -239,3 +239,73 @@ def dummy_blocks_have_no_target_and_ambiguity_is_refused(setFuel: bool):
     except RuntimeError:
         ok = False
     assert not ok
+
+
+# ----------------------------------------------------------------------------- axial linkage from the real geometry
+HexAssembly = repo("armi.reactor.assemblies:HexAssembly")
+AssemblyAxialLinkage = repo("armi.reactor.converters.axialExpansionChanger.assemblyAxialLinkage:AssemblyAxialLinkage")
+Circle = repo("armi.reactor.components.basicShapes:Circle")
+Hexagon = repo("armi.reactor.components.basicShapes:Hexagon")
+
+
+def circle(name, solid, idm, od, mult, nd=0.01):
+    """a real Circle with cold dimensions id / od / mult (parameter collection viewed as a map)"""
+    p = new(PMap, numberDensities={"U235": nd}, detailedNDens=None, pinNDens=None, volume=1.0, type=name, serialNum=1, od=od, mult=mult, flags=None)
+    p.id = idm
+    return new(Circle, p=p, material=new(Material) if solid else new(Fluid), parent=None, height=0.0, zbottom=0.0, ztop=0.0, name=name, cached={},
+               inputTemperatureInC=20.0)
+
+
+def real_assembly(blocks):
+    a = new(HexAssembly, _children=blocks, p=new(PMap, assemNum=3), name="A", parent=None, spatialGrid=None, spatialLocator=None)
+    for b in blocks:
+        b.parent = a
+        for c in b._children:
+            c.parent = b
+    return a
+
+
+@lemma(gen={"n": (2, 3), "o0": (0.1, 2.0), "o1": (0.1, 2.0), "i0": (0.0, 1.5), "i1": (0.0, 1.5), "m0": [1.0, 169.0], "m1": [1.0, 169.0]})
+def linkage_follows_block_order_and_radial_overlap(n: int, i0: float, o0: float, i1: float, o1: float, m0: float, m1: float):
+    """the REAL AssemblyAxialLinkage of a REAL HexAssembly of n = 2..3 blocks (enumerated); blocks 0 and 1 hold one solid
+    Circle each (any inner / outer diameters and multiplicities) plus a fluid ring, a third block only fluid:
+    block links follow the block order; the two solids are linked to each other exactly when they have the same
+    multiplicity and their cross-sections overlap (larger inner diameter < smaller outer diameter); fluids are never
+    linked; links are mutual (upper of the lower = lower of the upper)."""
+    n = choose(n, 2, 3)
+    assume(0 <= i0 and i0 < o0 and 0 <= i1 and i1 < o1 and m0 >= 1 and m1 >= 1)
+    s0, k0 = circle("fuel", True, i0, o0, m0), circle("coolant", False, o0, o0 + 1.0, m0)
+    s1, k1 = circle("fuel", True, i1, o1, m1), circle("coolant", False, o1, o1 + 1.0, m1)
+    kd = circle("coolant", False, 0.0, 3.0, 1.0)
+    blocks = [block(0.0, 10.0, [s0, k0]), block(10.0, 20.0, [s1, k1])] + ([block(20.0, 30.0, [kd])] if n == 3 else [])
+    a = real_assembly(blocks)
+    lk = AssemblyAxialLinkage(a)
+    assert same(lk.a, a) and len(lk.linkedBlocks) == n
+    for k in range(n):
+        below = blocks[k - 1] if k > 0 else None
+        above = blocks[k + 1] if k + 1 < n else None
+        assert same(lk.linkedBlocks[blocks[k]].lower, below) and same(lk.linkedBlocks[blocks[k]].upper, above), "blocks are linked in assembly order"
+    overlap = max(i0, i1) < min(o0, o1)
+    linked = eq(m0, m1) and overlap
+    assert len(lk.linkedComponents) == 2 and s0 in lk.linkedComponents and s1 in lk.linkedComponents, "only solids take part"
+    assert is_none(lk.linkedComponents[s0].lower) and is_none(lk.linkedComponents[s1].upper)
+    if linked:
+        assert same(lk.linkedComponents[s0].upper, s1) and same(lk.linkedComponents[s1].lower, s0), "overlapping solids are linked, mutually"
+    else:
+        assert is_none(lk.linkedComponents[s0].upper) and is_none(lk.linkedComponents[s1].lower), "no overlap / other multiplicity: not linked"
+
+
+@lemma(gen={"o0": (0.1, 2.0), "o1": (0.1, 2.0), "o2": (0.1, 2.0)})
+def ambiguous_linkage_is_refused(o0: float, o1: float, o2: float):
+    """a solid pin below TWO solid pins of the same multiplicity that both overlap it: the linkage is refused (RuntimeError),
+    it is never resolved silently in favour of one of them"""
+    assume(o0 > 0 and o1 > 0 and o2 > 0)
+    s0 = circle("fuel", True, 0.0, o0, 1.0)
+    s1, s2 = circle("fuel", True, 0.0, o1, 1.0), circle("slug", True, 0.0, o2, 1.0)
+    a = real_assembly([block(0.0, 10.0, [s0]), block(10.0, 20.0, [s1, s2])])
+    try:
+        AssemblyAxialLinkage(a)
+        refused = False
+    except RuntimeError:
+        refused = True
+    assert refused
